@@ -266,8 +266,11 @@ func (db *Database) buildTFIDFSearcher() {
 // SearchUniversal performs BM25F search over the index with optional platform/pipeline filters.
 func (db *Database) SearchUniversal(query string, options SearchOptions) []SearchResult {
 	if db.uIndex == nil || db.uIndex.N != len(db.Commands) {
-		// (Re)build lazily if needed
+		// (Re)build lazily if needed. The TF-IDF re-ranker and the command index
+		// describe the same command list, so they are rebuilt together: a stale
+		// re-ranker would blend similarities of the wrong documents into the scores.
 		db.BuildUniversalIndex()
+		db.buildTFIDFSearcher()
 	}
 
 	if options.Limit <= 0 {
